@@ -322,3 +322,503 @@ Proof.
 Qed.
 End Cfg.
 End TopLevel.
+
+(** * corollaries: the pinned statements *)
+Section Corollaries.
+Context {A : Type} (sizeN : A -> N).
+Notation sz := (sz sizeN).
+
+Lemma limitN_conv : forall ty (b : list A), limitN sizeN ty b = N.of_nat (limit sz ty b).
+Proof.
+  intros ty b. unfold limitN, limit, lim_val, lim_from, smax_of. cbn [fst snd]. rewrite smax_conv.
+  destruct ty; lia.
+Qed.
+
+Lemma lift_ok : forall B (r : res B) x, lift r = MOk x -> r = Ok x.
+Proof. intros B [y|e] x H; [injection H as <-; reflexivity|discriminate]. Qed.
+
+(** below usize::MAX the limit is its own effective limit *)
+Lemma eff_lim_below : forall ty limit_ (input : list A), lim_exact sizeN ty limit_ input ->
+  eff_lim sizeN ty limit_ input = N.max limit_ 1.
+Proof.
+  intros ty limit_ input [H|H]; unfold eff_lim, eff_limit.
+  - destruct (N.ltb_spec (N.max limit_ 1) UMAX); [reflexivity|]. unfold UMAX in *. lia.
+  - destruct (N.leb_spec (eff_X sizeN ty input) UMAX); [|lia]. rewrite orb_true_r. reflexivity.
+Qed.
+
+Lemma eff_exact : forall ty prefetch limit_ (input : list A), (limit_ < W)%N ->
+  no_sat sizeN ty prefetch limit_ input ->
+  eff_lim sizeN ty limit_ input = N.max limit_ 1 /\ eff_pre sizeN ty prefetch limit_ input = N.max prefetch 1.
+Proof.
+  intros ty prefetch limit_ input Hl Hs. unfold no_sat, eff_lim, eff_pre, eff_limit, eff_prefetch in *.
+  set (LN := N.max limit_ 1) in *. set (PN := N.max prefetch 1) in *. set (X := eff_X sizeN ty input) in *.
+  assert (HLP : (LN <= LN * PN)%N) by (subst LN PN; nia).
+  assert (HLU : (LN <= UMAX)%N) by (subst LN; unfold W, UMAX in *; lia).
+  destruct Hs as [Hs|Hs].
+  - destruct (N.ltb_spec LN UMAX); [|lia]. destruct (N.ltb_spec (LN * PN) UMAX); [|lia]. auto.
+  - destruct (N.leb_spec X UMAX); [|lia]. rewrite orb_true_r. split; [reflexivity|].
+    destruct (N.ltb_spec (LN * PN) UMAX); [reflexivity|]. cbn [orb].
+    destruct (N.leb_spec X (LN * PN)); [reflexivity|lia].
+Qed.
+
+Lemma batches_clamp : forall sort shuffle (prefetch limit_ : N) ty o (input : list A),
+  batches sz sort shuffle (N.to_nat (N.max prefetch 1)) (N.to_nat (N.max limit_ 1)) ty o input
+  = batches sz sort shuffle (N.to_nat prefetch) (N.to_nat limit_) ty o input.
+Proof.
+  intros. unfold batches.
+  replace (Nat.max (N.to_nat (N.max limit_ 1)) 1) with (Nat.max (N.to_nat limit_) 1) by lia.
+  replace (Nat.max (N.to_nat (N.max prefetch 1)) 1) with (Nat.max (N.to_nat prefetch) 1) by lia.
+  reflexivity.
+Qed.
+Lemma batches_seeded_clamp : forall sort shuffle (prefetch limit_ : N) ty seed (input : list A),
+  batches_seeded sz sort shuffle (N.to_nat (N.max prefetch 1)) (N.to_nat (N.max limit_ 1)) ty seed input
+  = batches_seeded sz sort shuffle (N.to_nat prefetch) (N.to_nat limit_) ty seed input.
+Proof.
+  intros. unfold batches_seeded.
+  replace (Nat.max (N.to_nat (N.max limit_ 1)) 1) with (Nat.max (N.to_nat limit_) 1) by lia.
+  replace (Nat.max (N.to_nat (N.max prefetch 1)) 1) with (Nat.max (N.to_nat prefetch) 1) by lia.
+  reflexivity.
+Qed.
+
+(** ** the repaired code: effective parameters, for every input *)
+Lemma machine_eff_o_l : forall p sort shuffle prefetch limit_ ty o (input : list A),
+  (limit_ < W)%N -> fits (length input) ->
+  mbatches_o sizeN p true sort shuffle prefetch limit_ ty o input
+  = lift (batches sz sort shuffle (N.to_nat (eff_pre sizeN ty prefetch limit_ input))
+                  (N.to_nat (eff_lim sizeN ty limit_ input)) ty o input).
+Proof.
+  intros p sort shuffle prefetch limit_ ty o input Hl Hf.
+  apply machine_eff_gen_o; auto. intros H. discriminate H.
+Qed.
+Lemma machine_eff_s_l : forall p sort shuffle prefetch limit_ ty seed (input : list A),
+  (limit_ < W)%N -> fits (length input) ->
+  mbatches_seeded sizeN p true sort shuffle prefetch limit_ ty seed input
+  = lift (batches_seeded sz sort shuffle (N.to_nat (eff_pre sizeN ty prefetch limit_ input))
+                         (N.to_nat (eff_lim sizeN ty limit_ input)) ty seed input).
+Proof.
+  intros p sort shuffle prefetch limit_ ty seed input Hl Hf.
+  apply machine_eff_gen_s; auto. intros H. discriminate H.
+Qed.
+
+(** never a fault, a panic or an exhausted fuel: every oracle *)
+Lemma machine_safe_o_l : forall p sort shuffle prefetch limit_ ty o (input : list A),
+  (limit_ < W)%N -> fits (length input) ->
+  (exists bs, mbatches_o sizeN p true sort shuffle prefetch limit_ ty o input = MOk bs) \/
+  (mbatches_o sizeN p true sort shuffle prefetch limit_ ty o input = MErr BadOracle /\ ~ oracle_guard o).
+Proof.
+  intros p sort shuffle prefetch limit_ ty o input Hl Hf. rewrite machine_eff_o_l by assumption.
+  destruct (batches_safe_l sz sort shuffle (N.to_nat (eff_pre sizeN ty prefetch limit_ input))
+              (N.to_nat (eff_lim sizeN ty limit_ input)) ty o input) as (H1 & H2 & H3).
+  destruct (batches sz sort shuffle _ _ ty o input) as [bs|[]]; cbn [lift].
+  - left. eauto.
+  - congruence.
+  - right. split; [reflexivity|apply H3; reflexivity].
+  - congruence.
+Qed.
+
+Lemma machine_total_o_l : forall p sort shuffle prefetch limit_ ty o (input : list A),
+  (limit_ < W)%N -> fits (length input) -> oracle_guard o ->
+  exists bs, mbatches_o sizeN p true sort shuffle prefetch limit_ ty o input = MOk bs.
+Proof.
+  intros p sort shuffle prefetch limit_ ty o input Hl Hf Hg.
+  destruct (machine_safe_o_l p sort shuffle prefetch limit_ ty o input Hl Hf) as [H|[_ H]]; [exact H|contradiction].
+Qed.
+
+Lemma machine_total_s_l : forall p sort shuffle prefetch limit_ ty seed (input : list A),
+  (limit_ < W)%N -> fits (length input) ->
+  exists bs, mbatches_seeded sizeN p true sort shuffle prefetch limit_ ty seed input = MOk bs.
+Proof.
+  intros p sort shuffle prefetch limit_ ty seed input Hl Hf. rewrite machine_eff_s_l by assumption.
+  destruct (seeded_total_l sz sort shuffle (N.to_nat (eff_pre sizeN ty prefetch limit_ input))
+              (N.to_nat (eff_lim sizeN ty limit_ input)) ty seed input Hf) as [bs ->].
+  exists bs. reflexivity.
+Qed.
+
+(** the clauses, from the unbounded statement under the effective limit *)
+Lemma props_transfer : forall ty limit_ (input : list A) bs,
+  (Permutation (concat bs) input /\ Forall (fun b => b <> []) bs /\
+   Forall (fun b => 1 < length b -> limit sz ty b <= Nat.max (N.to_nat (eff_lim sizeN ty limit_ input)) 1) bs) ->
+  Permutation (concat bs) input /\ Forall (fun b => b <> []) bs /\
+  (lim_exact sizeN ty limit_ input -> Forall (fun b => 1 < length b -> (limitN sizeN ty b <= N.max limit_ 1)%N) bs).
+Proof.
+  intros ty limit_ input bs (Hp & Hne & Hl). split; [exact Hp|]. split; [exact Hne|].
+  intros Hlt. rewrite (eff_lim_below ty limit_ input Hlt) in Hl.
+  eapply Forall_impl; [|exact Hl]. cbn beta. intros b Hb H1. specialize (Hb H1).
+  rewrite limitN_conv. lia.
+Qed.
+
+Lemma machine_props_o_l : forall p sort shuffle prefetch limit_ ty o (input : list A) bs,
+  (limit_ < W)%N -> fits (length input) ->
+  mbatches_o sizeN p true sort shuffle prefetch limit_ ty o input = MOk bs ->
+  Permutation (concat bs) input /\ Forall (fun b => b <> []) bs /\
+  (lim_exact sizeN ty limit_ input -> Forall (fun b => 1 < length b -> (limitN sizeN ty b <= N.max limit_ 1)%N) bs).
+Proof.
+  intros p sort shuffle prefetch limit_ ty o input bs Hl Hf H. rewrite machine_eff_o_l in H by assumption.
+  apply lift_ok in H. apply props_transfer. exact (batches_props_l sz _ _ _ _ _ _ _ _ H).
+Qed.
+
+Lemma machine_props_s_l : forall p sort shuffle prefetch limit_ ty seed (input : list A) bs,
+  (limit_ < W)%N -> fits (length input) ->
+  mbatches_seeded sizeN p true sort shuffle prefetch limit_ ty seed input = MOk bs ->
+  Permutation (concat bs) input /\ Forall (fun b => b <> []) bs /\
+  (lim_exact sizeN ty limit_ input -> Forall (fun b => 1 < length b -> (limitN sizeN ty b <= N.max limit_ 1)%N) bs).
+Proof.
+  intros p sort shuffle prefetch limit_ ty seed input bs Hl Hf H. rewrite machine_eff_s_l in H by assumption.
+  apply lift_ok in H. apply props_transfer. exact (seeded_props_l sz _ _ _ _ _ _ _ _ Hf H).
+Qed.
+
+Lemma plain_transfer : forall ty limit_ (input : list A) bs,
+  (concat bs = input /\
+   forall i b b' x, nth_error bs i = Some b -> nth_error bs (S i) = Some (x :: b') ->
+     Nat.max (N.to_nat (eff_lim sizeN ty limit_ input)) 1 < limit sz ty (b ++ [x])) ->
+  concat bs = input /\
+  (lim_exact sizeN ty limit_ input -> forall i b b' x, nth_error bs i = Some b -> nth_error bs (S i) = Some (x :: b') ->
+     (N.max limit_ 1 < limitN sizeN ty (b ++ [x]))%N).
+Proof.
+  intros ty limit_ input bs [Hc Hg]. split; [exact Hc|].
+  intros Hlt i b b' x Hi Hsi. specialize (Hg i b b' x Hi Hsi).
+  rewrite (eff_lim_below ty limit_ input Hlt) in Hg. rewrite limitN_conv. lia.
+Qed.
+
+Lemma machine_plain_o_l : forall p prefetch limit_ ty o (input : list A) bs,
+  (limit_ < W)%N -> fits (length input) ->
+  mbatches_o sizeN p true false false prefetch limit_ ty o input = MOk bs ->
+  concat bs = input /\
+  (lim_exact sizeN ty limit_ input -> forall i b b' x, nth_error bs i = Some b -> nth_error bs (S i) = Some (x :: b') ->
+     (N.max limit_ 1 < limitN sizeN ty (b ++ [x]))%N).
+Proof.
+  intros p prefetch limit_ ty o input bs Hl Hf H. rewrite machine_eff_o_l in H by assumption.
+  apply lift_ok in H. apply plain_transfer.
+  split; [exact (plain_order_l _ sz _ _ _ _ _ _ H)|exact (plain_greedy_l _ sz _ _ _ _ _ _ H)].
+Qed.
+
+Lemma machine_plain_s_l : forall p prefetch limit_ ty seed (input : list A) bs,
+  (limit_ < W)%N -> fits (length input) ->
+  mbatches_seeded sizeN p true false false prefetch limit_ ty seed input = MOk bs ->
+  concat bs = input /\
+  (lim_exact sizeN ty limit_ input -> forall i b b' x, nth_error bs i = Some b -> nth_error bs (S i) = Some (x :: b') ->
+     (N.max limit_ 1 < limitN sizeN ty (b ++ [x]))%N).
+Proof.
+  intros p prefetch limit_ ty seed input bs Hl Hf H. rewrite machine_eff_s_l in H by assumption.
+  apply lift_ok in H. apply plain_transfer. exact (seeded_plain_l sz _ _ _ _ _ _ Hf H).
+Qed.
+
+(** ** equality with the unbounded model under the given configuration *)
+Lemma machine_eq_model_o_l : forall p sort shuffle prefetch limit_ ty o (input : list A),
+  (limit_ < W)%N -> fits (length input) -> no_sat sizeN ty prefetch limit_ input ->
+  mbatches_o sizeN p true sort shuffle prefetch limit_ ty o input
+  = lift (batches sz sort shuffle (N.to_nat prefetch) (N.to_nat limit_) ty o input).
+Proof.
+  intros p sort shuffle prefetch limit_ ty o input Hl Hf Hs. rewrite machine_eff_o_l by assumption.
+  destruct (eff_exact ty prefetch limit_ input Hl Hs) as [-> ->]. rewrite batches_clamp. reflexivity.
+Qed.
+
+Lemma machine_eq_model_s_l : forall p sort shuffle prefetch limit_ ty seed (input : list A),
+  (limit_ < W)%N -> fits (length input) -> no_sat sizeN ty prefetch limit_ input ->
+  mbatches_seeded sizeN p true sort shuffle prefetch limit_ ty seed input
+  = lift (batches_seeded sz sort shuffle (N.to_nat prefetch) (N.to_nat limit_) ty seed input).
+Proof.
+  intros p sort shuffle prefetch limit_ ty seed input Hl Hf Hs. rewrite machine_eff_s_l by assumption.
+  destruct (eff_exact ty prefetch limit_ input Hl Hs) as [-> ->]. rewrite batches_seeded_clamp. reflexivity.
+Qed.
+
+(** BatchSize: no premise at all *)
+Lemma no_sat_batch_size : forall prefetch limit_ (input : list A), fits (length input) ->
+  no_sat sizeN BatchSize prefetch limit_ input.
+Proof. intros prefetch limit_ input Hf. right. unfold eff_X, xmax, fits, UMAX in *. lia. Qed.
+
+(** ** debug and release builds compute the same *)
+Lemma machine_profiles_agree_l : forall sort shuffle prefetch limit_ ty (input : list A),
+  (limit_ < W)%N -> fits (length input) ->
+  (forall o, mbatches_o sizeN Checked true sort shuffle prefetch limit_ ty o input
+             = mbatches_o sizeN Wrapping true sort shuffle prefetch limit_ ty o input) /\
+  (forall seed, mbatches_seeded sizeN Checked true sort shuffle prefetch limit_ ty seed input
+                = mbatches_seeded sizeN Wrapping true sort shuffle prefetch limit_ ty seed input).
+Proof.
+  intros sort shuffle prefetch limit_ ty input Hl Hf. split; intros x.
+  - rewrite !machine_eff_o_l by assumption. reflexivity.
+  - rewrite !machine_eff_s_l by assumption. reflexivity.
+Qed.
+
+(** ** the pinned code: where neither product overflows it is the repaired code *)
+Lemma pinned_agrees_elsewhere_l : forall p sort shuffle prefetch limit_ ty (input : list A),
+  (limit_ < W)%N -> fits (length input) -> no_ovf sizeN ty prefetch limit_ input ->
+  (forall o, mbatches_o sizeN p false sort shuffle prefetch limit_ ty o input
+             = mbatches_o sizeN p true sort shuffle prefetch limit_ ty o input) /\
+  (forall seed, mbatches_seeded sizeN p false sort shuffle prefetch limit_ ty seed input
+                = mbatches_seeded sizeN p true sort shuffle prefetch limit_ ty seed input).
+Proof.
+  intros p sort shuffle prefetch limit_ ty input Hl Hf Hn. split; intros x.
+  - rewrite (machine_eff_gen_o sizeN p false) by auto. rewrite machine_eff_o_l by assumption. reflexivity.
+  - rewrite (machine_eff_gen_s sizeN p false) by auto. rewrite machine_eff_s_l by assumption. reflexivity.
+Qed.
+
+(** ... and with overflow checks every configuration whose buffer bound is no usize faults at
+    site 4 in the first call of next(), whatever the input (even an empty one) *)
+Lemma pinned_bound_faults_l : forall St (D : draws A St) sort shuffle prefetch limit_ ty st0 (input : list A),
+  sort || shuffle = true -> (W <= N.max limit_ 1 * N.max prefetch 1)%N ->
+  mbatches sizeN Checked false D sort shuffle prefetch limit_ ty st0 input = MFault 4.
+Proof.
+  intros St D sort shuffle prefetch limit_ ty st0 input Hm Hw. unfold mbatches.
+  rewrite Nat.add_1_r. cbn [mbatches_loop]. unfold mbuild_batch.
+  replace (negb sort && negb shuffle) with false by (destruct sort, shuffle; try reflexivity; discriminate).
+  assert (Hv : mlim_val Checked false ty (mlim_from sizeN []) = MOk 0%N).
+  { unfold mlim_val, mlim_from. cbn [length map fold_right fst snd]. change (N.of_nat 0) with 0%N.
+    destruct ty; [reflexivity|]. rewrite mmul_ok by (unfold W; lia). reflexivity. }
+  assert (Hb : mbound Checked false (N.max limit_ 1) (N.max prefetch 1) = MFault 4).
+  { unfold mbound, mmul, mul_o. cbn zeta.
+    destruct (N.ltb_spec (N.max limit_ 1 * N.max prefetch 1) W); [lia|reflexivity]. }
+  destruct input as [|x input]; cbn [mfill]; rewrite Hv; cbn [mbind]; rewrite Hb; reflexivity.
+Qed.
+End Corollaries.
+
+(** * witnesses (items = (position, size)) *)
+Definition p63 : N := 9223372036854775808.
+
+(** the pinned code with overflow checks: padded limit 5, sizes 2^63, 1, 1, no sort, no shuffle:
+    [2 * 2^63] in [limit()] faults (site 3); the unbounded model and the repaired code answer *)
+Lemma pinned_no_fault_refuted_l :
+  mbatches_o misize Checked false false false 1 5 Padded o_default (mk_mitems [p63; 1; 1]%N) = MFault 3 /\
+  mbatches_o misize Checked true false false 1 5 Padded o_default (mk_mitems [p63; 1; 1]%N)
+  = MOk [[(0, p63)]; [(1, 1%N); (2, 1%N)]].
+Proof. split; vm_compute; reflexivity. Qed.
+
+(** the same input without overflow checks: the product wraps to 0 <= 5 and the first batch holds
+    two items of padded size 2^64 > 5 *)
+Lemma pinned_wrapping_limit_refuted_l :
+  mbatches_o misize Wrapping false false false 1 5 Padded o_default (mk_mitems [p63; 1; 1]%N)
+  = MOk [[(0, p63); (1, 1%N)]; [(2, 1%N)]] /\
+  (5 < limitN misize Padded [(0%nat, p63); (1%nat, 1)])%N.
+Proof. split; vm_compute; reflexivity. Qed.
+
+(** limit 2^63, prefetch factor 2, sort: the wrapped bound is 0 and the buffer holds one item at a
+    time (three batches); the repaired code fills the buffer (one batch) *)
+Lemma pinned_wrapping_bound_refuted_l :
+  mbatches_o misize Wrapping false true false 2 p63 BatchSize o_default (mk_mitems [1; 2; 3]%N)
+  = MOk [[(0, 1%N)]; [(1, 2%N)]; [(2, 3%N)]] /\
+  mbatches_o misize Wrapping true true false 2 p63 BatchSize o_default (mk_mitems [1; 2; 3]%N)
+  = MOk [[(2, 3%N); (1, 2%N); (0, 1%N)]].
+Proof. split; vm_compute; reflexivity. Qed.
+
+(** the repaired code with limit = usize::MAX: the saturated product never exceeds the limit, two
+    items of 2^63 share a batch although 2 * 2^63 > usize::MAX (known finding LIMIT-MAX) *)
+Lemma machine_limit_max_refuted_l : forall p,
+  mbatches_o misize p true false false 1 UMAX Padded o_default (mk_mitems [p63; p63])
+  = MOk [[(0, p63); (1, p63)]] /\
+  (UMAX < limitN misize Padded [(0%nat, p63); (1%nat, p63)])%N /\
+  ~ no_sat misize Padded 1 UMAX (mk_mitems [p63; p63]).
+Proof.
+  intros p. split; [destruct p; vm_compute; reflexivity|]. split; [vm_compute; reflexivity|].
+  unfold no_sat. intros [H|H]; vm_compute in H; [discriminate H|apply H; reflexivity].
+Qed.
+
+Lemma over_umax : forall {A} (sizeN : A -> N) ty (b : list A), (UMAX < limitN sizeN ty b)%N ->
+  ~ limit (sz sizeN) ty b <= Nat.max (N.to_nat UMAX) 1.
+Proof.
+  intros A sizeN ty b Hlt Hb. rewrite limitN_conv in Hlt.
+  assert (Hu : (1 <= UMAX)%N) by (unfold UMAX; lia).
+  set (x := limit (sz sizeN) ty b) in *. clearbody x. generalize dependent UMAX. intros u. lia.
+Qed.
+
+(** hence the premise of [machine_eq_model] is needed: on this input the machine model is not the
+    unbounded model under the given limit *)
+Lemma machine_eq_model_refuted_l : forall p,
+  mbatches_o misize p true false false 1 UMAX Padded o_default (mk_mitems [p63; p63])
+  <> lift (batches (sz misize) false false (N.to_nat 1) (N.to_nat UMAX) Padded o_default (mk_mitems [p63; p63])).
+Proof.
+  intros p H. destruct (machine_limit_max_refuted_l p) as (Hm & Hlt & _). rewrite Hm in H.
+  symmetry in H. apply lift_ok in H. apply batches_limit_l in H.
+  inversion H as [|b l Hb _]; subst. cbn [length] in Hb. specialize (Hb ltac:(lia)).
+  exact (over_umax misize Padded _ Hlt Hb).
+Qed.
+
+(** * val level: the run of the correspondence *)
+Lemma v_mitems_length : forall v, length (v_mitems v) = length (v_list v_big (v_nth 6 v)).
+Proof.
+  intros v. unfold v_mitems, mk_mitems, mitem. rewrite combine_length, seq_length. apply Nat.min_id.
+Qed.
+
+Lemma machine_run_eq_l : forall p v, (v_big (v_nth 3 v) < W)%N -> fits (length (v_mitems v)) ->
+  run_machine p true v
+  = lift (batches_seeded (sz misize) (v_bool (v_nth 0 v)) (v_bool (v_nth 1 v))
+            (N.to_nat (eff_pre misize (v_ty (v_nth 4 v)) (v_big (v_nth 2 v)) (v_big (v_nth 3 v)) (v_mitems v)))
+            (N.to_nat (eff_lim misize (v_ty (v_nth 4 v)) (v_big (v_nth 3 v)) (v_mitems v)))
+            (v_ty (v_nth 4 v)) (in_seed v) (v_mitems v)) /\
+  run_M06s Checked true v = run_M06s Wrapping true v /\
+  exists bs, run_machine p true v = MOk bs.
+Proof.
+  intros p v Hl Hf. unfold run_M06s, run_machine. split; [|split].
+  - apply machine_eff_s_l; assumption.
+  - rewrite (proj2 (machine_profiles_agree_l misize _ _ _ _ _ _ Hl Hf)). reflexivity.
+  - apply machine_total_s_l; assumption.
+Qed.
+
+(** * the executable statement over machine integers *)
+Lemma map_fst_combine_seqN : forall (sizes : list N) a, map fst (combine (seq a (length sizes)) sizes) = seq a (length sizes).
+Proof. induction sizes as [|s sizes IH]; intros a; cbn; [reflexivity|]. rewrite IH. reflexivity. Qed.
+
+Lemma mk_mitems_fst : forall sizes, map fst (mk_mitems sizes) = seq 0 (length sizes).
+Proof. intros. apply map_fst_combine_seqN. Qed.
+
+Lemma mk_mitems_length : forall sizes, length (mk_mitems sizes) = length sizes.
+Proof. intros. unfold mk_mitems, mitem. rewrite combine_length, seq_length. apply Nat.min_id. Qed.
+
+Lemma combine_seq_nthN : forall (sizes : list N) a x d, In x (combine (seq a (length sizes)) sizes) ->
+  a <= fst x /\ nth (fst x - a) (combine (seq a (length sizes)) sizes) d = x.
+Proof.
+  induction sizes as [|s sizes IH]; intros a x d H; cbn in H; [contradiction|].
+  destruct H as [<-|H].
+  - cbn [fst]. rewrite Nat.sub_diag. split; [lia|reflexivity].
+  - destruct (IH (S a) x d H) as [Hle Hn]. split; [lia|].
+    cbn [length seq combine]. replace (fst x - a) with (S (fst x - S a)) by lia. exact Hn.
+Qed.
+
+Lemma mlookup_in : forall sizes x, In x (mk_mitems sizes) -> mlookup (mk_mitems sizes) (fst x) = x.
+Proof.
+  intros sizes x H. unfold mlookup, mk_mitems in *.
+  destruct (combine_seq_nthN sizes 0 x (fst x, W) H) as [_ Hn]. rewrite Nat.sub_0_r in Hn. exact Hn.
+Qed.
+
+Lemma v_batches_mbatches_v : forall bs, v_batches (mbatches_v bs) = map (map fst) bs.
+Proof.
+  intros. unfold v_batches, mbatches_v, v_list, list_v. rewrite map_map. apply map_ext. intros b.
+  rewrite map_map. apply map_ext. intros x. unfold v_nat, nat_v. cbn [v_z]. apply Nat2Z.id.
+Qed.
+
+Lemma mrelookup : forall sizes (bs : list (list mitem)),
+  (forall x, In x (concat bs) -> In x (mk_mitems sizes)) ->
+  map (map (mlookup (mk_mitems sizes))) (map (map fst) bs) = bs.
+Proof.
+  intros sizes. induction bs as [|b bs IH]; intros H; [reflexivity|]. cbn [map]. f_equal.
+  - rewrite map_map. rewrite <- (map_id b) at 2. apply map_ext_in. intros x Hx.
+    apply mlookup_in. apply H. cbn [concat]. apply in_or_app. left. exact Hx.
+  - apply IH. intros x Hx. apply H. cbn [concat]. apply in_or_app. right. exact Hx.
+Qed.
+
+Lemma mgreedyb_cons : forall ty L b x tail bs,
+  mgreedyb ty L (b :: (x :: tail) :: bs) = (L <? mlimitN ty (b ++ [x]))%N && mgreedyb ty L ((x :: tail) :: bs).
+Proof. reflexivity. Qed.
+
+Lemma mgreedyb_spec : forall ty L bs, mgreedyb ty L bs = true ->
+  forall i b b' x, nth_error bs i = Some b -> nth_error bs (S i) = Some (x :: b') ->
+  (L < limitN misize ty (b ++ [x]))%N.
+Proof.
+  intros ty L. induction bs as [|b0 bs IH]; intros Hg i b b' x Hi Hsi; [destruct i; discriminate|].
+  destruct bs as [|b1 bs]; [destruct i; discriminate|].
+  destruct b1 as [|y b1]; [cbn in Hg; discriminate|].
+  rewrite mgreedyb_cons in Hg. apply andb_true_iff in Hg. destruct Hg as [H0 Hg].
+  destruct i as [|i].
+  - cbn in Hi, Hsi. injection Hi as <-. injection Hsi as <- <-. apply N.ltb_lt. exact H0.
+  - apply (IH Hg i b b' x); assumption.
+Qed.
+
+Lemma mgreedyb_complete : forall ty L bs,
+  (forall i b b' x, nth_error bs i = Some b -> nth_error bs (S i) = Some (x :: b') ->
+     (L < limitN misize ty (b ++ [x]))%N) ->
+  Forall (fun b => b <> []) bs -> mgreedyb ty L bs = true.
+Proof.
+  intros ty L. induction bs as [|b0 bs IH]; intros Hg Hne; [reflexivity|].
+  destruct bs as [|b1 bs]; [reflexivity|].
+  destruct b1 as [|y b1].
+  - inversion Hne as [|? ? _ Hne']; subst. inversion Hne' as [|? ? Hn _]; subst. congruence.
+  - rewrite mgreedyb_cons. apply andb_true_iff. split.
+    + apply N.ltb_lt. apply (Hg 0 b0 b1 y); reflexivity.
+    + apply IH.
+      * intros i b b' x Hi Hsi. apply (Hg (S i) b b' x); assumption.
+      * inversion Hne; assumption.
+Qed.
+
+(** a passing check means: the batches (positions resolved to items) are a partition of the input,
+    none empty, the limit (in machine integers) respected; plain mode: input order, greedy-maximal *)
+Lemma check_M06_sound_l : forall v out, check_M06 v out = true ->
+  let items := v_mitems v in
+  let ty := v_ty (v_nth 4 v) in
+  let L := N.max (v_big (v_nth 3 v)) 1 in
+  let bs := map (map (mlookup items)) (v_batches (v_nth 0 out)) in
+  Permutation (concat bs) items /\
+  Forall (fun b => b <> []) bs /\
+  Forall (fun b => 1 < length b -> (limitN misize ty b <= L)%N) bs /\
+  (v_bool (v_nth 0 v) = false -> v_bool (v_nth 1 v) = false ->
+   concat bs = items /\
+   forall i b b' x, nth_error bs i = Some b -> nth_error bs (S i) = Some (x :: b') ->
+     (L < limitN misize ty (b ++ [x]))%N).
+Proof.
+  intros v out H. cbn zeta. unfold check_M06 in H.
+  set (items := v_mitems v) in *. set (ids := v_batches (v_nth 0 out)) in *.
+  set (ty := v_ty (v_nth 4 v)) in *. set (L := N.max (v_big (v_nth 3 v)) 1) in *.
+  rewrite !andb_true_iff in H. destruct H as [[[[[_ Hperm] Hne] Hlim] _] Hplain].
+  apply is_perm_ids_sound in Hperm.
+  assert (Hconcat : concat (map (map (mlookup items)) ids) = map (mlookup items) (concat ids))
+    by (symmetry; apply concat_map).
+  assert (Hitems : map (mlookup items) (seq 0 (length items)) = items).
+  { transitivity (map (fun i => nth i items (0, W)) (seq 0 (length items))); [|apply map_nth_seq].
+    apply map_ext_in. intros i Hi. apply in_seq in Hi. unfold mlookup. apply nth_indep. lia. }
+  split; [|split; [|split]].
+  - rewrite Hconcat. apply (Permutation_map (mlookup items)) in Hperm. rewrite Hitems in Hperm. exact Hperm.
+  - apply Forall_forall. intros b Hb. apply in_map_iff in Hb. destruct Hb as (b0 & <- & Hb0).
+    rewrite forallb_forall in Hne. specialize (Hne _ Hb0). destruct b0; [discriminate|cbn; congruence].
+  - apply Forall_forall. intros b Hb Hlt. rewrite forallb_forall in Hlim. specialize (Hlim _ Hb).
+    unfold mlimit_okb in Hlim. apply orb_true_iff in Hlim. destruct Hlim as [E|E].
+    + apply Nat.leb_le in E. lia.
+    + apply N.leb_le in E. exact E.
+  - intros E1 E2. rewrite E1, E2 in Hplain. cbn [negb andb] in Hplain.
+    apply andb_true_iff in Hplain. destruct Hplain as [Ho Hg]. apply nat_list_eqb_eq in Ho. split.
+    + rewrite Hconcat, Ho. exact Hitems.
+    + apply (mgreedyb_spec ty L _ Hg).
+Qed.
+
+(** the machine model's own output passes it, in both profiles, whenever the limit is exact *)
+Lemma check_M06_run_l : forall p v, (v_big (v_nth 3 v) < W)%N -> fits (length (v_mitems v)) ->
+  lim_exact misize (v_ty (v_nth 4 v)) (v_big (v_nth 3 v)) (v_mitems v) ->
+  check_M06 v (run_M06s p true v) = true.
+Proof.
+  intros p v Hl Hf Hx. unfold run_M06s, run_machine.
+  set (sort := v_bool (v_nth 0 v)). set (shuffle := v_bool (v_nth 1 v)).
+  set (pf := v_big (v_nth 2 v)). set (lm := v_big (v_nth 3 v)) in *. set (ty := v_ty (v_nth 4 v)) in *.
+  destruct (machine_total_s_l misize p sort shuffle pf lm ty (in_seed v) (v_mitems v) Hl Hf) as [bs Hbs].
+  rewrite Hbs. unfold check_M06. fold sort shuffle lm ty.
+  cbn [v_nth nth shape2]. rewrite v_batches_mbatches_v.
+  destruct (machine_props_s_l misize _ _ _ _ _ _ _ _ _ Hl Hf Hbs) as (Hperm & Hne & Hlim).
+  specialize (Hlim Hx).
+  unfold v_mitems in *. set (sizes := v_list v_big (v_nth 6 v)) in *.
+  rewrite mrelookup by (intros x Hx'; eapply Permutation_in; eauto).
+  assert (Hids : concat (map (map fst) bs) = map fst (concat bs)) by (symmetry; apply concat_map).
+  assert (Hpf : Permutation (map fst (concat bs)) (seq 0 (length sizes))).
+  { rewrite <- mk_mitems_fst. apply Permutation_map. exact Hperm. }
+  rewrite Hids, mk_mitems_length.
+  assert (H1 : is_perm_ids (map fst (concat bs)) (length sizes) = true).
+  { unfold is_perm_ids. apply andb_true_iff. split.
+    - apply Nat.eqb_eq. rewrite (Permutation_length Hpf). apply seq_length.
+    - apply forallb_forall. intros i Hi. apply existsb_exists. exists i. split; [|apply Nat.eqb_refl].
+      eapply Permutation_in; [symmetry; exact Hpf|exact Hi]. }
+  assert (H2 : forallb (fun b : list nat => negb (is_nil b)) (map (map fst) bs) = true).
+  { apply forallb_forall. intros b Hb. apply in_map_iff in Hb. destruct Hb as (b0 & <- & Hb0).
+    rewrite Forall_forall in Hne. specialize (Hne _ Hb0). destruct b0; [exfalso; apply Hne; reflexivity|reflexivity]. }
+  assert (H3 : forallb (mlimit_okb ty (N.max lm 1)) bs = true).
+  { apply forallb_forall. intros b Hb. rewrite Forall_forall in Hlim. specialize (Hlim _ Hb).
+    unfold mlimit_okb. destruct (length b <=? 1) eqn:E; [reflexivity|].
+    apply Nat.leb_gt in E. cbn [orb]. apply N.leb_le. apply Hlim. exact E. }
+  rewrite H1, H2, H3. unfold v_bool. cbn [v_z Z.eqb negb andb].
+  destruct (negb sort && negb shuffle) eqn:Em; [|reflexivity].
+  apply andb_true_iff in Em. destruct Em as [E1 E2].
+  apply negb_true_iff in E1. apply negb_true_iff in E2. rewrite E1, E2 in Hbs.
+  destruct (machine_plain_s_l misize _ _ _ _ _ _ _ Hl Hf Hbs) as [Hc Hg]. specialize (Hg Hx).
+  rewrite Hc, mk_mitems_fst, nat_list_eqb_refl. cbn [andb].
+  apply mgreedyb_complete; assumption.
+Qed.
+
+(** the correspondence clause holds of the machine model's own output *)
+Lemma nat_ll_eqb_refl : forall l, nat_ll_eqb l l = true.
+Proof. induction l as [|x l IH]; [reflexivity|]. cbn [nat_ll_eqb]. rewrite nat_list_eqb_refl, IH. reflexivity. Qed.
+
+Lemma machine_agree_run_l : forall p v, (v_big (v_nth 3 v) < W)%N -> fits (length (v_mitems v)) ->
+  machine_agree v (run_M06s p true v) = true.
+Proof.
+  intros p v Hl Hf. destruct (machine_run_eq_l Checked v Hl Hf) as (_ & Hpa & _).
+  assert (Hp : run_M06s p true v = run_M06s Checked true v) by (destruct p; [reflexivity|symmetry; exact Hpa]).
+  unfold machine_agree. rewrite <- Hpa, Hp.
+  destruct (machine_run_eq_l Checked v Hl Hf) as (_ & _ & bs & Hbs).
+  assert (Hs : seeded_ok (run_M06s Checked true v) (run_M06s Checked true v) = true).
+  { unfold run_M06s. rewrite Hbs. unfold seeded_ok. cbn [shape2 v_nth nth andb]. apply nat_ll_eqb_refl. }
+  rewrite Hs, orb_true_r. reflexivity.
+Qed.
